@@ -16,27 +16,37 @@ import (
 )
 
 func rootGlobal(v ssa.Value, depth int) *ssa.Global {
-	if depth > 50 {
+	return rootGlobalSeen(v, map[ssa.Value]bool{})
+}
+
+func rootGlobalSeen(v ssa.Value, seen map[ssa.Value]bool) *ssa.Global {
+	if v == nil || seen[v] {
 		return nil
 	}
+	seen[v] = true
 	switch x := v.(type) {
 	case *ssa.Global:
 		return x
 	case *ssa.FieldAddr:
-		return rootGlobal(x.X, depth+1)
+		return rootGlobalSeen(x.X, seen)
 	case *ssa.IndexAddr:
-		return rootGlobal(x.X, depth+1)
+		return rootGlobalSeen(x.X, seen)
 	case *ssa.UnOp:
-		return rootGlobal(x.X, depth+1) // load of a pointer / map / slice held in a global
+		return rootGlobalSeen(x.X, seen) // load of a pointer / map / slice held in a global
 	case *ssa.Slice:
-		return rootGlobal(x.X, depth+1)
+		return rootGlobalSeen(x.X, seen)
 	case *ssa.ChangeType:
-		return rootGlobal(x.X, depth+1)
+		return rootGlobalSeen(x.X, seen)
 	case *ssa.Phi:
 		for _, e := range x.Edges {
-			if g := rootGlobal(e, depth+1); g != nil {
+			if g := rootGlobalSeen(e, seen); g != nil {
 				return g
 			}
+		}
+	case *ssa.Call:
+		// the result of append may be its first argument's backing array
+		if b, ok := x.Call.Value.(*ssa.Builtin); ok && b.Name() == "append" && len(x.Call.Args) > 0 {
+			return rootGlobalSeen(x.Call.Args[0], seen)
 		}
 	}
 	return nil
@@ -94,7 +104,8 @@ func verifySweep(p *Program) *FuncResult {
 								add(f, in, "global-address-escapes", g)
 							}
 						}
-						if b, ok := x.Call.Value.(*ssa.Builtin); ok && (b.Name() == "copy" || b.Name() == "delete" || b.Name() == "clear") && len(x.Call.Args) > 0 {
+						if b, ok := x.Call.Value.(*ssa.Builtin); ok && (b.Name() == "copy" || b.Name() == "delete" || b.Name() == "clear" || b.Name() == "append") && len(x.Call.Args) > 0 {
+							// (append writes into the spare capacity of its first argument's backing array)
 							add(f, in, "global-"+b.Name(), rootGlobal(x.Call.Args[0], 0))
 						}
 					}
